@@ -99,6 +99,8 @@ static void run_c01(uint64_t c) {
                                       "<if case='{var:a}'>x<else>y<else>z</if>", "</loop>", "</if>", "<else />", "{var:}", "{var:[0]}", "{var:list[}", "{var:list[0}", "{math:(}", "{math:)}",
                                       "{math:((1)}", "{math:{var:a}^{var:neg}}", "{math:0^0 % 0}", "{if case=\"{var:a\" true=\"x\"}", "<loop set=\"recs\" value=\"v\" group=\"y\" sort=\"ascend\">{var:v}</loop>",
                                       "<loop value=\"v\" sort=\"x\">", "<if case=\"", "<if case=\"1\"", "<if case=\"1\">", "{if case", "{if case=", "{if case=\"", "{svar:", "{svar:a", "{svar:a,", "{math:", "{math:1+", "{math:1==", "{math:=",
+                                      "{math:1e30 % -1}", "{math:-9223372036854775808.0 % -1}", "{math:1e30 % -1.5}", "{math:{var:big} % {var:neg}}", "{math:-9223372036854775808 % -1}",
+                                      "{math:-9223372036854775808 / -1}", "{math:1e308 * 10 % 3}", "{math:9223372036854775807 + 1 % -1}", "{math:2 ^ 64 % -1}", "<if case=\"1e30 % -1 == 0\">x</if>",
                                       "{math:!}", "{math:&}", "{math:|}", "{math:>}", "{math:<}", "{math:-}", "{math:+}", "{math:1-}", "{math:{var:a}-}", "{math:-{var:a}}", "{math: }"};
         const size_t       ns      = sizeof(seeds) / sizeof(seeds[0]);
         for (int i = 0; i < 8; ++i) {
